@@ -2,6 +2,7 @@ import TantivyModel.Proofs.Store.Codec
 import TantivyModel.Proofs.Store.Cache
 import TantivyModel.Proofs.Store.SkipIndex
 import TantivyModel.Proofs.Store.Writer
+import TantivyModel.Proofs.Store.Merge
 /-!
 # C09 — Stored documents are returned exactly as they were added
 
@@ -162,6 +163,80 @@ theorem C09_cache_transparent (C : Compression) (sf : StoreFile) (hk : KeyDeterm
     (runGets C sf (BlockCache.new cap) accesses).1 = accesses.map (getBytes C sf) :=
   runGets_spec C sf hk accesses _ (cacheInv_new C sf cap)
 
+/-- a written store satisfies the hypothesis of `C09_cache_transparent`: with non-empty compressed
+blocks the start offset identifies the block, so the cache is transparent on every store the
+writer (or a merge) produces -/
+theorem C09_cache_transparent_written (C : Compression) (hC : GoodCompression C) (P : Nat) (hP : 2 ≤ P)
+    (sf : StoreFile) (docs : List Bytes) (hne : docs ≠ []) (h : Holds C P sf docs)
+    (cap : Nat) (accesses : List Nat) :
+    (runGets C sf (BlockCache.new cap) accesses).1 = accesses.map fun i => docs[i]? := by
+  rw [C09_cache_transparent C sf (holds_keyDetermines C hC.nonempty P hP sf docs hne h) cap accesses]
+  apply List.map_congr_left
+  intro i _
+  exact holds_get C hC.roundtrip P hP sf docs hne h i
+
+/-- a cache keyed by something that does not determine the block is *not* transparent: two
+checkpoints with the same key and different blocks (the state a wrong key after stacking would
+produce) -/
+theorem C09_cache_needs_key_counterexample :
+    ∃ (sf : StoreFile), (runGets Compression.none sf (BlockCache.new 1) [0, 1]).1
+      ≠ [0, 1].map (getBytes Compression.none sf) := by
+  refine ⟨{ data := [1, 0, 0, 0, 0, 1, 0, 0, 0, 2, 0, 0, 0, 0, 1, 0, 0, 0],
+            index := [encBlock [⟨0, 1, 0, 9⟩] ++ encBlock [⟨1, 2, 0, 18⟩]], decompId := 0, version := 2 }, ?_⟩
+  decide +kernel
+
+/-! ### iteration -/
+
+/-- iterating a store yields exactly its live documents, in doc-id order -/
+theorem C09_iter_live_in_order (C : Compression) (hC : GoodCompression C) (P : Nat) (hP : 2 ≤ P)
+    (sf : StoreFile) (docs : List Bytes) (hne : docs ≠ []) (h : Holds C P sf docs) (alive : Nat → Bool) :
+    iterRaw C sf alive = (liveDocs alive 0 docs).map some :=
+  holds_iter C hC.roundtrip P hP sf docs hne h alive
+
+/-- every store the writer produces `Holds` its documents (so the theorem above applies to it) -/
+theorem C09_written_holds (C : Compression) (K P bs : Nat) (hK : 1 ≤ K) (hbs : bs < 4294967296)
+    (docs : List Bytes) (hall : ∀ d ∈ docs, d ≠ [] ∧ bs + d.length < 4294967296) :
+    Holds C P (writtenStore C K P bs docs) docs :=
+  holds_written C K P bs hK hbs docs hall
+
+/-! ### merge -/
+
+/-- Both paths of `write_storable_fields` (trivial doc-id mapping): whether a source is copied
+document by document or stacked block-wise — as decided by the guard (`has_deletes`, number of
+blocks, same codec) — the merged store holds the concatenation of the sources' live documents in
+new-doc-id order, and `get` returns them. -/
+theorem C09_merge_store (C : Compression) (hC : GoodCompression C) (K P minBlocks bs : Nat) (hK : 1 ≤ K)
+    (hP : 2 ≤ P) (hbs : bs < 4294967296) (segs : List (SourceSegment × List Bytes))
+    (hsegs : ∀ p ∈ segs, SegOK C P bs p.1 p.2) :
+    let live := (segs.map fun p => liveDocs p.1.alive 0 p.2).flatten
+    ∃ w, (segs.map (·.1)).foldl (mergeStep C K minBlocks) (some (Writer.new bs)) = some w ∧
+      mergeStores C K P minBlocks bs (segs.map (·.1)) = some (w.close C P) ∧
+      let merged : StoreFile :=
+        { data := (w.sendBlock C).written, index := finishedLayers P (w.sendBlock C).checkpoints,
+          decompId := C.id, version := Gen.DOC_STORE_VERSION }
+      Holds C P merged live ∧ (live ≠ [] → ∀ i, getBytes C merged i = live[i]?) := by
+  intro live
+  obtain ⟨w, e, hw, hb⟩ := mergeFold_spec C K P minBlocks bs hK hP hbs segs (Writer.new bs) [] (winv_new C K bs)
+    rfl hsegs
+  simp only [List.nil_append] at hw
+  obtain ⟨groups, hd, hl, hg, _⟩ := winv_flush C K hK w live (by rw [hb]; exact hbs) hw
+  refine ⟨w, e, by simp [mergeStores, e], ?_⟩
+  intro merged
+  have hh : Holds C P merged live := ⟨groups, _, hd, hl, hg, rfl⟩
+  exact ⟨hh, fun hne i => holds_get C hC.roundtrip P hP merged live hne hh i⟩
+
+/-- stacking is only correct under its guard: stacking a source in which document 0 is deleted
+keeps that document (the per-document path would drop it) -/
+theorem C09_stack_with_deletes_counterexample :
+    let src := writtenStore Compression.none 8 8 100 [[1], [2]]
+    let alive : Nat → Bool := fun i => i != 0
+    let w := (Writer.new 100).stack Compression.none src.data (checkpointsOf src.index)
+    let merged : StoreFile :=
+      { data := (w.sendBlock Compression.none).written,
+        index := finishedLayers 8 (w.sendBlock Compression.none).checkpoints, decompId := 0, version := 2 }
+    getBytes Compression.none merged 0 = some [1] ∧ (liveDocs alive 0 [[1], [2]])[0]? = some [2] := by
+  decide +kernel
+
 /-! ### non-vacuity -/
 
 example : ∃ C, GoodCompression C :=
@@ -197,5 +272,18 @@ example : getBytes Compression.none (writtenStore Compression.none 8 8 9 [[1], [
 example : ((([[1], [2, 3, 4, 5, 6, 7, 8, 9, 10, 11, 12], [13, 14]] : List Bytes).foldl
     (Writer.storeBytes Compression.none 8) (Writer.new 9)).sendBlock Compression.none).checkpoints.length = 2 := by
   decide +kernel
+
+/-- a source segment satisfying `SegOK`: two documents, the second deleted -/
+example : SegOK Compression.none 8 100
+    { store := writtenStore Compression.none 8 8 100 [[1], [2]], codec := Compression.none,
+      alive := fun i => i == 0, hasDeletes := true } [[1], [2]] :=
+  { holds := holds_written Compression.none 8 8 100 (by decide) (by decide) _ (by decide)
+    codecRt := fun _ => rfl
+    nonempty := by decide
+    docsOk := by decide
+    noDeletes := by intro h; cases h
+    sameCodec := fun _ => rfl }
+
+example : liveDocs (fun i => i == 0) 0 [[1], [2]] = [[1]] := by decide
 
 end TantivyModel.C09
